@@ -357,7 +357,7 @@ func runCluster(r *mon.Report, idx int, rng *rand.Rand) {
 		nodes := &corev1.NodeList{}
 		_ = e.API.Raw.List(context.Background(), nodes)
 		if len(nodes.Items) > 0 {
-			e.KubeletNotReady(nodes.Items[rng.Intn(len(nodes.Items))].Name)
+			e.KubeletSetReady(nodes.Items[rng.Intn(len(nodes.Items))].Name, []string{"False", "Unknown", "absent"}[rng.Intn(3)])
 			_ = e.SyncState()
 		}
 	})
